@@ -724,7 +724,7 @@ class _AsmItem:
         return _mat(s.vk, s.K)
 
 
-ITEMS_CFGS = [dict(nitems=k, parallel=p) for k in (0, 1, 2, 3) for p in (False, True)]
+ITEMS_CFGS = [dict(nitems=k, parallel=p) for k in (0, 1, 2, 3) for p in (False, True)] + [dict(nitems=3, parallel=False, zero=True)]  # zero: an item switched off by the multiplier 0.0
 
 
 @contract("C07", "fun_items_jac_items", configs=ITEMS_CFGS, engine="E1")
@@ -742,6 +742,10 @@ def items_assembly(vk, cfg):
     for k in range(cfg["nitems"]):
         own = _container(vk, "u1p", name=f"own{k}")
         mult = None if k == 0 else vk.real_scalar(f"m{k}", near=2.0)
+        if cfg.get("zero") and k > 0:
+            # concrete multipliers (so that a truth-value test on them is decided): -1.5 and the edge value 0.0 -- a
+            # switched-off item contributes neither to the residual nor to the matrix
+            mult = -1.5 if k == 1 else 0.0
         nrows = n if k != 1 else n - 1  # the second item only knows the first field: needs resize (zero padding)
         items.append(_AsmItem(vk, k, own, nrows, n, mult, log))
 
